@@ -32,6 +32,16 @@ def gen_ordered_world(rng, tops, big=False):
         if d + "/" + name not in have:
             have.add(d + "/" + name)
             world["nodes"].append({"path": d + "/" + name, "type": "file", "content": "x" * rng.choice([9, 10, 100])})
+    if rng.random() < 0.25:
+        # a name that is a strict prefix of another whose next character sorts below every printable one (and below any
+        # separator a joined multi-key representation might use), in the same and in different directories
+        files_ = [n["path"] for n in world["nodes"] if n["type"] == "file"]
+        for f in rng.sample(files_, min(len(files_), rng.choice([1, 2, 3]))):
+            d_ = rng.choice(dirs) if rng.random() < 0.4 else f.rsplit("/", 1)[0]
+            newp = d_ + "/" + f.rsplit("/", 1)[1] + rng.choice(["\t", "\n", "\x01", "\x1e", "\x1f", " "]) + rng.choice(["z", "draft", "0", ""])
+            if newp not in have:
+                have.add(newp)
+                world["nodes"].append({"path": newp, "type": "file", "content": "x" * rng.choice([9, 10, 100])})
     base = 1_600_000_000
     for n in world["nodes"]:
         if rng.random() < 0.7:
